@@ -201,3 +201,22 @@ Example C04_rocc_holds_nonvacuous :
   holds (tlook T) good 0%nat 7%nat = true /\ holds (tlook T) bad 0%nat 7%nat = false.
 Proof. split; vm_compute; reflexivity. Qed.
 Print Assumptions C04_rocc_holds_nonvacuous.
+
+(* ---- gemmx channel-wise rescale launch path: launch registers receive the launch values ------------------------------
+   With an injective register map (part A: C04_addr_map_injective_gemmx) every write the special launch path emits
+   to the launch_gemmx register carries the launch op's launch_gemmx value and every write to the launch_streamer
+   register its launch_streamer value (the reprogrammed shift / mult / M / temporal_loop_bound CSRs are elsewhere). *)
+From Snax Require Import Model.C04Gemmx Proofs.C04GemmxProofs.
+
+Theorem C04_gemmx_launch_values :
+  forall (g : gx) (ai : accinfo) m_attr mults shifts fs cb a_g a_s vg vs,
+  gemmx_launch_special g ai m_attr mults shifts fs = Some cb ->
+  NoDup (map snd (ai_fields ai) ++ map snd (ai_launch ai)) ->
+  assoc (gx_lgemmx g) (ai_launch ai) = Some a_g -> assoc (gx_lstreamer g) (ai_launch ai) = Some a_s ->
+  gx_lgemmx g <> gx_lstreamer g ->
+  assoc (gx_lgemmx g) (map (fun fv => (fst fv, Z.of_nat (snd fv))) fs) = Some vg ->
+  assoc (gx_lstreamer g) (map (fun fv => (fst fv, Z.of_nat (snd fv))) fs) = Some vs ->
+  (forall v, In (CWrite a_g v) cb -> v = VRef (Z.to_nat vg))
+  /\ (forall v, In (CWrite a_s v) cb -> v = VRef (Z.to_nat vs)).
+Proof. exact gemmx_launch_values. Qed.
+Print Assumptions C04_gemmx_launch_values.
